@@ -17,7 +17,7 @@ func init() {
 			"(R4) protocol.ToBalloonProof ties hyper value and history index to the same ActualVersion; (R5) the client entry points return DigestVerify's verdict unmodified. " +
 			"Method: path enumeration over the SSA CFG of loop-free functions with canonical comparison atoms, access-path provenance.",
 		Assumptions: []string{"hash collisions are infeasible", "deferred closures in verifiers may only set the result to false (checked)"},
-		Added:       "Third round: (R7) the client hands the proof it received to the verifier unmodified, and a missing audit-path entry aborts the recomputation instead of substituting a value.",
+		Added:       "Third round: (R7) the client hands the proof it received to the verifier unmodified, and a missing audit-path entry aborts the recomputation instead of substituting a value. Fifth round: which stored snapshot supplies which digest is decided per path on every ordering Actual<=Query<=Current.",
 		Declined:    "the cryptographic soundness argument itself (that both trees together bind digest and version), forging by recombination over all inputs.",
 	}, runC02)
 }
